@@ -9,8 +9,7 @@ STUBS = '''	#[cfg_attr(kani, kani::stub(std::alloc::alloc, crate::hstubs::alloc_
 '''
 for p in sys.argv[1:]:
     s = open(p).read()
-    if "hstubs::alloc_stub" not in s:
-        s = re.sub(r'(\t#\[cfg_attr\(kani, kani::unwind\(\d+\)\)\]\n)', lambda m: m.group(1) + STUBS, s)
+    s = re.sub(r'(\t#\[cfg_attr\(kani, kani::unwind\(\d+\)\)\]\n)(?!\t#\[cfg_attr\(kani, kani::stub\(std::alloc::alloc,)', lambda m: m.group(1) + STUBS, s)
     def meta(m):
         line = m.group(0)
         if '"z":' in line:
